@@ -33,7 +33,7 @@ def load_json(p, default):
 # Rules that count template INSTANTIATIONS (resolved CFGs of the driver TUs): which instantiations exist depends on how the library
 # spells its internal calls (isequal(a,b) vs isequal(b,a) instantiates a different specialisation), so a behaviour-preserving edit can
 # merge or split a few of them. Their floor tolerates a quarter of the frozen count; a vanished anchor (zero or a handful) still fails.
-INSTANTIATION_RULES = ("R-EQSHAPE", "R-MAYBE", "R-DIV", "R-EVAL", "R-OWN", "R-SIMDRANGE", "R-SIMDID", "R-SIMDOP", "R-UFOP.guarded")
+INSTANTIATION_RULES = ("R-SIMDPAD", "R-EQSHAPE", "R-MAYBE", "R-DIV", "R-EVAL", "R-OWN", "R-SIMDRANGE", "R-SIMDID", "R-SIMDOP", "R-UFOP.guarded")
 
 def _floor_min(rule, floor):
     if any(rule == r or rule.startswith(r + ".") for r in INSTANTIATION_RULES):
